@@ -328,7 +328,7 @@ def _parser_checks(pid, tier, seed):
                 # ~15 min of corrupt1 exploration on 10 workers, so the set is bounded rather than "all 27")
                 more = SMALL_FILES + ['open_short_time', 'open_padtlf', 'close_sig', 'list_padtlf', 'octet16', 'list_empty_opts']
                 out += file_specs('chk_mut_' + g, g, tier, seed, [1, 2, 3, 4], names=more)
-                out += file_specs('chk_mut_' + g, g, tier, seed, [1, 3], names=VALUE_FILES[:1] + ['list_vals_misc', 'list16'])
+                out += file_specs('chk_mut_' + g, g, tier, seed, [1], names=['list_vals_misc'])
                 out += file_specs('chk_mut_' + g, g, tier, seed, [0], names=None, nsym=16)
         else:
             out += file_specs('chk_mut_c03', 'c03', tier, seed, [0], names=None, nsym=(14 if q else 28))
